@@ -196,6 +196,10 @@ class Crate:
         self.mods = {m["path"]: m for m in it["mods"]}
         self.hir = {b["path"]: b for b in j["hir"]}
         self.mir = {b["path"]: b for b in j["mir"]}
+        if os.environ.get("ZSA_ALPHA"):
+            _alpha_rename(j["hir"], os.environ["ZSA_ALPHA"])
+        if not os.environ.get("ZSA_RAW_NAMES"):
+            _label_locals(j["hir"])
 
     def const_int(self, path):
         c = self.consts.get(path)
@@ -215,6 +219,62 @@ class Crate:
         """Unique fn/HIR body whose path ends with `suffix` (on a `::` boundary)."""
         hits = [p for p in self.hir if p == suffix or p.endswith("::" + suffix)]
         return hits
+
+
+LOCALS_TABLE = os.path.join(VERIF, "tables", "locals.json")
+_LABELS = None
+
+
+def _label_locals(bodies):
+    """Make every rule independent of what the source calls its local variables: each local is renamed to the
+    label frozen for its *structural* name (hq.structural_names: how it is defined) in tables/locals.json — the
+    labels are the names the rules were written against — or to the structural name itself when the table has
+    no entry (a local that did not exist when the rules were written).  The source's own spelling is kept in
+    `src_name` for reports only."""
+    global _LABELS
+    from . import hq
+    if _LABELS is None:
+        _LABELS = json.load(open(LOCALS_TABLE)) if os.path.exists(LOCALS_TABLE) else {}
+
+    def rec(n, names, labels):
+        if isinstance(n, dict):
+            if n.get("k") in ("Local", "Bind") and "lid" in n and isinstance(n.get("name"), str):
+                c = names.get(n["lid"])
+                if c is not None and c != "self":
+                    n["src_name"] = n["name"]
+                    n["name"] = labels.get(c, c)
+            for v in n.values():
+                rec(v, names, labels)
+        elif isinstance(n, list):
+            for v in n:
+                rec(v, names, labels)
+    for b in bodies:
+        if b.get("body") is None:
+            continue
+        names = hq.structural_names(b)
+        b["local_names"] = names
+        labels = _LABELS.get(b["path"], {})
+        rec(b.get("params"), names, labels)
+        rec(b.get("body"), names, labels)
+
+
+def _alpha_rename(bodies, suffix):
+    """Robustness probe (selftest only): consistently rename every local binding and parameter of every body.
+    A rule whose verdict changes under this renaming depends on a local variable's name — which a
+    behaviour-preserving edit may change — and must be rewritten in canonical / provenance form."""
+    def rec(n):
+        if isinstance(n, dict):
+            k = n.get("k")
+            if k in ("Local", "Bind") and isinstance(n.get("name"), str) and n["name"] != "self" and "lid" in n:
+                n["name"] = n["name"] + suffix
+            for v in n.values():
+                rec(v)
+        elif isinstance(n, list):
+            for v in n:
+                rec(v)
+    for b in bodies:
+        rec(b.get("params"))
+        rec(b.get("body"))
 
 
 def load(tags, repo=None):
